@@ -227,6 +227,11 @@ func (ex *Exec) apiIntrinsic(name string, fn *ssa.Function, args []Value, fr *Fr
 func (ex *Exec) doAssert(id string, c *Term, fr *Frame, pos token.Pos) {
 	ex.addEvent("assert", id, c)
 	if c.conc {
+		if c.cv != 0 {
+			ex.nAssertConcTrue++
+		} else {
+			ex.nAssertConcFalse++
+		}
 		if c.cv == 0 {
 			m, _, _ := ex.model(nil)
 			ex.recordCE("assert", id, "assertion "+id+" is false on this path", ex.posOf(fr, pos), "", m)
